@@ -68,6 +68,20 @@ def build(repo):
     U.raw(common.EXTEND_SPECS, name='trusted:extend')
     U.item('harper-core/src/linting/suggestion.rs', 'enum Suggestion')
     U.raw(SPEC, name='lemmas:applied', props=['C03'])
-    U.impl('harper-core/src/linting/suggestion.rs', 'impl Suggestion', {'apply': APPLY})
+    U.raw('''
+// ---- trusted std: char case predicates / conversions are total pure functions (no postcondition) ----
+pub assume_specification [char::is_ascii_uppercase](c: &char) -> (b: bool);
+pub assume_specification [char::is_uppercase](c: char) -> (b: bool);
+pub assume_specification [char::to_ascii_uppercase](c: &char) -> (r: char);
+pub assume_specification [char::to_ascii_lowercase](c: &char) -> (r: char);
+''', name='trusted:char-case')
+    U.impl('harper-core/src/linting/suggestion.rs', 'impl Suggestion', {
+        'apply': APPLY,
+        # the replacement keeps its length (only the case of its letters follows the template): whatever a rule passes in, the
+        # suggestion is a ReplaceWith of as many characters
+        'replace_with_match_case': dict(result='r', props=['C03'],
+                                        ensures=['r matches Suggestion::ReplaceWith(v) && v@.len() == value@.len()'],
+                                        loops={1: dict(desugar='R18', invariant=['value@.len() == len0'])},
+                                        proofs=[dict(at='body_start', kind='ghost', text='let ghost len0 = value@.len();')])})
     U.raw(common.FOOTER)
     return U
